@@ -252,14 +252,41 @@ func (x *Exec) evCall(st *State, call *ast.CallExpr) []Val {
 			isnil = "true"
 		}
 		packed := Val{T: x.vc.mkSlice(srt, arr, x.vc.intLit(n), isnil), Sort: srt, GoT: st0}
-		args = append(args[:min(np-1, len(args))], x.name("varargs", packed))
+		tail := append([]Val{}, args[min(np-1, len(args)):]...)
+		pv := x.name("varargs", packed)
+		if x.varargsByCall == nil {
+			x.varargsByCall = map[*ast.CallExpr][]Val{}
+		}
+		x.varargsByCall[call] = tail
+		// ground terms for the elements: quantified clauses of the callee's contract over args[i] are instantiated at them
+		if pv.T != packed.T && n <= 16 {
+			for k, a := range tail {
+				x.vc.termFact(eq(x.vc.slIndex(pv, x.vc.intLit(int64(k))).T, a.T))
+			}
+		}
+		args = append(args[:min(np-1, len(args))], pv)
 	}
 	if len(call.Args) > 0 && !isTuple {
 		x.rawArgs = rawsOf(x, call, args)
 	}
 	rawCopy := append([]Val{}, x.rawArgs...) // interior pointers passed as interface{} are copied out too
 	var results []Val
-	if fn == nil {
+	// interior pointers that may have travelled inside other values (a struct field, a slice element): the copy
+	// and the location are compared before and after the call
+	type snap struct{ t, f Val }
+	var snaps []snap
+	if x.spawnMode == 0 {
+		for _, ip := range x.interiors {
+			if _, live := x.prog.interior[ip.ref.T]; !live {
+				snaps = append(snaps, snap{})
+				continue
+			}
+			snaps = append(snaps, snap{t: x.deref(st, ip.ref, ip.lv.typ), f: x.load(st, ip.lv)})
+		}
+	}
+	if fn == nil && x.spawnMode > 0 {
+		results = x.freshResults(st, call, "spawned")
+	} else if fn == nil {
 		// call through a function value: a "fnvalue" contract for the field / parameter, else unknown effect
 		if c := x.fnValueContract(call); c != nil && sig != nil {
 			results = x.applyContractSig(st, call, sig, c.Local, "self", c, nil, args)
@@ -282,6 +309,34 @@ func (x *Exec) evCall(st *State, call *ast.CallExpr) []Val {
 			x.storeLV(st, lv, x.deref(st, a, lv.typ))
 			delete(x.prog.interior, a.T)
 		}
+	}
+	for i, sn := range snaps {
+		if sn.t.T == "" || i >= len(x.interiors) {
+			continue
+		}
+		ip := x.interiors[i]
+		if _, live := x.prog.interior[ip.ref.T]; !live {
+			continue
+		}
+		postT, postF := x.deref(st, ip.ref, ip.lv.typ), x.load(st, ip.lv)
+		if postT.T == sn.t.T && postF.T == sn.f.T {
+			continue // neither the copy nor the location can have been written
+		}
+		// the call may have written the location through the pointer (seen as a change of the copy) or directly:
+		// the one that changed wins; if both did, the value is unknown
+		unk := x.havocVal(st, "aliased", ip.lv.typ)
+		nv := postF
+		nv.T = ite(eq(postT.T, sn.t.T), postF.T, ite(eq(postF.T, sn.f.T), postT.T, unk.T))
+		nv = x.name("synced", nv)
+		fv, tv := nv, nv
+		if ip.pc != "" && ip.pc != "true" {
+			// on paths that did not take the pointer there is nothing to bring in step
+			fv.T = ite(ip.pc, nv.T, postF.T)
+			tv.T = ite(ip.pc, nv.T, postT.T)
+		}
+		x.storeLV(st, ip.lv, fv)
+		x.storeRef(st, ip.ref, ip.lv.typ, tv)
+		x.vc.note("interior pointer: copy and location brought back in step after a call")
 	}
 	return results
 }
@@ -598,6 +653,17 @@ func (x *Exec) appendSlice(st *State, s, o Val) Val {
 
 func (x *Exec) callFunc(st *State, call *ast.CallExpr, fn *types.Func, recv *Val, args []Val) []Val {
 	key := funcKey(fn)
+	if x.spawnMode > 0 {
+		// a spawned call: only the caller's call-site assertions and the callee's call-history ghosts
+		c := x.prog.specs.Contracts[x.pkg.PkgPath+"::"+key]
+		if c == nil {
+			c = x.prog.specs.Contracts[key]
+		}
+		if c != nil {
+			return x.applyContract(st, call, fn, c, recv, args)
+		}
+		return x.freshResults(st, call, "spawned")
+	}
 	// special library models
 	if vs, ok := x.libModel(st, call, fn, key, recv, args); ok {
 		return vs
@@ -955,6 +1021,9 @@ func (x *Exec) applyContractSig(st *State, call *ast.CallExpr, sig *types.Signat
 	// preconditions
 	env := x.specEnv(st, pre, names, c.PkgPath)
 	x.evalLets(env, c)
+	if x.spawnMode > 0 {
+		return x.applySpawned(st, pre, call, sig, fnName, c, names)
+	}
 	for i, rq := range c.Requires {
 		for j, cj := range splitConj(rq.Expr) {
 			g := env.boolean(cj)
@@ -969,6 +1038,35 @@ func (x *Exec) applyContractSig(st *State, call *ast.CallExpr, sig *types.Signat
 	x.applyModifies(st, c)
 	for _, m := range c.Modifies {
 		if !strings.HasPrefix(m, "*") || m == "*" {
+			continue
+		}
+		if strings.Contains(m, "[].") {
+			// *param[].Field: the objects the Field pointers of the elements refer to
+			pn, fld, pointee, ok := x.prog.elemFieldItemSig(m, sig)
+			if !ok {
+				panic(unsupported("modifies " + m + ": not a slice-of-struct parameter with a pointer field"))
+			}
+			tail, known := x.varargsByCall[call]
+			isLast := sig.Variadic() && sig.Params().At(sig.Params().Len()-1).Name() == pn
+			if known && isLast && call.Ellipsis == token.NoPos {
+				for _, ev := range tail {
+					et := sig.Params().At(sig.Params().Len() - 1).Type().(*types.Slice).Elem()
+					obj := ev
+					if pt, isPtr := et.Underlying().(*types.Pointer); isPtr {
+						obj = x.deref(st, ev, pt.Elem())
+					}
+					fv, okf := x.vc.selField(obj, fld)
+					if !okf {
+						panic(unsupported("modifies " + m + ": field not modelled"))
+					}
+					nv := x.havocVal(st, "written_"+fld, pointee)
+					x.storeRef(st, fv, pointee, nv)
+				}
+			} else {
+				hk, _ := x.heapKeyT(pointee)
+				x.heapFor(st, pointee)
+				x.havocKey(st, hk)
+			}
 			continue
 		}
 		// *param: the object the pointer argument refers to (type taken from the call site)
@@ -1021,6 +1119,16 @@ func (x *Exec) applyContractSig(st *State, call *ast.CallExpr, sig *types.Signat
 			x.vc.note("ensures of " + c.Local + " mentioning the callee's locals not available to callers: " + trunc(en.Src, 60))
 		}
 	}
+	x.applyCounts(st, post, c)
+	kind := c.Kind
+	if c.Opts["trusted"] {
+		kind = "trusted"
+	}
+	x.prog.usedContracts[x.fname+" -> "+c.Key+" ["+kind+"]"] = true
+	return results
+}
+
+func (x *Exec) applyCounts(st *State, post *specEnv, c *Contract) {
 	// call-history ghosts: pure bookkeeping by the caller of how often this callee returned with a given outcome
 	for _, cd := range c.Counts {
 		g, ok := x.prog.specs.Ghosts[cd.Ghost]
@@ -1050,11 +1158,21 @@ func (x *Exec) applyContractSig(st *State, call *ast.CallExpr, sig *types.Signat
 		}
 		st.heap["G:"+cd.Ghost] = x.nameAlways(cd.Ghost, nv)
 	}
-	kind := c.Kind
-	if c.Opts["trusted"] {
-		kind = "trusted"
+}
+
+// applySpawned: the callee is started in a goroutine, not called: its results are unknown, nothing it does is
+// visible here; only the call-history ghosts move
+func (x *Exec) applySpawned(st *State, pre *State, call *ast.CallExpr, sig *types.Signature, fnName string, c *Contract, names map[string]Val) []Val {
+	rts := x.resultTypes(call)
+	var results []Val
+	for _, rt := range rts {
+		results = append(results, x.havocVal(st, "spawned_"+fnName, rt))
 	}
-	x.prog.usedContracts[x.fname+" -> "+c.Key+" ["+kind+"]"] = true
+	x.bindResults(names, sig, results)
+	post := x.specEnv(st, pre, names, c.PkgPath)
+	x.evalLets(post, c)
+	x.applyCounts(st, post, c)
+	x.prog.usedContracts[x.fname+" -> "+c.Key+" [spawned]"] = true
 	return results
 }
 
